@@ -1183,7 +1183,7 @@ func parsePageSelectors(rule pa.QualifiedRule) (out []pageSelector) {
 					}
 				case pa.FunctionBlock:
 					tokens = tokens[1:]
-					if firstToken.Name != "nth" {
+					if utils.AsciiLower(firstToken.Name) != "nth" {
 						return nil
 					}
 					var group []pa.Token
